@@ -78,7 +78,17 @@ class ClassInfo:
     def __init__(self, module, node):
         self.module, self.node, self.name = module, node, node.name
         self.qual = f"{module.name}.{node.name}"
-        self.methods = {n.name: n for n in node.body if isinstance(n, ast.FunctionDef)}
+        self.methods = {}
+        for n in node.body:
+            if isinstance(n, ast.FunctionDef):
+                # `@name.setter def name(...)` does not replace the getter: it is kept as `name.setter`
+                acc = next((ast.unparse(d).rsplit(".", 1)[1] for d in n.decorator_list
+                            if isinstance(d, ast.Attribute) and d.attr in ("setter", "deleter", "getter") and
+                            isinstance(d.value, ast.Name) and d.value.id == n.name), None)
+                if acc in ("setter", "deleter"):
+                    self.methods[f"{n.name}.{acc}"] = n
+                else:
+                    self.methods[n.name] = n
         self.bases = []        # resolved ClassInfo or dotted str
         self.class_attrs = {}
         for n in node.body:
@@ -175,6 +185,7 @@ class Program:
         self.genobjs = {}           # site -> (call node, bound arguments) of generator objects created but not yet run
         self.closures = {}          # site -> nested function definition + defining scope
         self.field_classes = {}     # (root class, field) -> class of the object the constructor leaves there
+        self._instance_attrs = {}
         self.field_aliases = {}     # (root class, owner.part) -> the field of the owner that holds the very same object
         self.nonnull = {}           # (root class, field) -> the attribute is never None once the object is constructed
         self.back_refs = {}         # (root class, owner.part) -> ("outer", prefix) when the part always denotes the owner
@@ -314,6 +325,21 @@ class Program:
     def subclasses(self, base, strict=False):
         out = [c for m in self.modules.values() for c in m.classes.values() if base in self.mro(c)]
         return [c for c in out if c is not base] if strict else out
+
+    def instance_attrs(self, cls):
+        """Names assigned as attributes of an object (`<name>.attr = ...`, setattr) anywhere in the classes of the MRO."""
+        key = cls.qual
+        if key not in self._instance_attrs:
+            out = set()
+            for k in self.mro(cls):
+                for n in ast.walk(k.node):
+                    if isinstance(n, ast.Attribute) and isinstance(n.ctx, (ast.Store, ast.Del)):
+                        out.add(n.attr)
+                    elif isinstance(n, ast.Call) and isinstance(n.func, ast.Name) and n.func.id == "setattr" and \
+                            len(n.args) >= 2 and isinstance(n.args[1], ast.Constant):
+                        out.add(n.args[1].value)
+            self._instance_attrs[key] = out
+        return self._instance_attrs[key]
 
     def cls(self, qual):
         mod, name = qual.rsplit(".", 1)
@@ -768,6 +794,12 @@ def norm_comp(c):
             if not whole and keyed:
                 c = ("comp", kind, lid, d[3]) + subst((key, val, conds), m)
                 continue
+        if it[0] == "comp" and it[1] in ("gen", "list") and it[4] is None and not it[6] and it[5][0] != "flat" and \
+                not (isinstance(val, tuple) and val and val[0] == "flat"):
+            # a comprehension over a mapped sequence maps the composition over the source
+            inner = relabel_loop(subst(it[5], {("elem", it[2]): el}), it[2], lid)
+            c = ("comp", kind, lid, it[3]) + subst((key, val, conds), {el: inner})
+            continue
         if it[0] == "fn" and it[1] == "zip" and len(it[2]) == 2:
             a, b = it[2]
             if b[0] == "fn" and b[1] == "repeat" and len(b[2]) == 1:
@@ -1307,8 +1339,10 @@ class Summariser:
             if init is not None and init in self.fnstack:
                 return None             # inside the constructor itself: nothing is known yet
             cache[key] = None
+            inits = [k.methods["__init__"] for k in self.prog.mro(self.cls) if "__init__" in k.methods]
             if init is not None and \
-                    any(isinstance(n, ast.Attribute) and n.attr == name and isinstance(n.ctx, ast.Store) for n in ast.walk(init)):
+                    any(isinstance(n, ast.Attribute) and n.attr == name and isinstance(n.ctx, ast.Store)
+                        for i in inits for n in ast.walk(i)):
                 try:
                     fs = self.prog.summarise(self.cls, "__init__").fields
                 except Unsupported:
@@ -1604,6 +1638,14 @@ class Summariser:
             attr = self.env[target.value.id][1] + target.attr
             self.fields[attr] = val
             events.append(Store(attr, val, st.lineno, aug))
+        elif isinstance(target, ast.Attribute) and self.is_self(target.value) and self.cls is not None and \
+                self.prog.find_method(self.cls, target.attr + ".setter")[1] is not None and aug is None:
+            c, m = self.prog.find_method(self.cls, target.attr + ".setter")
+            self.inline(c, m, (val,), {}, events, st)          # assignment to a property runs its setter
+        elif isinstance(target, ast.Attribute) and self.is_self(target.value) and self.cls is not None and \
+                self.prog.find_method(self.cls, target.attr)[1] is not None and \
+                any(ast.unparse(d) == "property" for d in self.prog.find_method(self.cls, target.attr)[1].decorator_list):
+            raise Unsupported(f"assignment to the property {target.attr} at {self.module.path}:{st.lineno}")
         elif isinstance(target, ast.Attribute) and self.is_self(target.value):
             attr = self.fname(target.attr)
             names = record_names(val)
@@ -2312,7 +2354,8 @@ class Summariser:
                         return self.inline(c, m, (), {}, events, e)
                     if m is not None:
                         return ("global", f"{c.qual}.{e.attr}")
-                    if self.fname(e.attr) not in self.fields:
+                    if self.fname(e.attr) not in self.fields and e.attr not in self.prog.instance_attrs(self.cls):
+                        # a class-level attribute that no method ever assigns on the instance
                         for k in self.prog.mro(self.cls):
                             if e.attr in k.class_attrs:
                                 return self._expr(k.class_attrs[e.attr], events)
@@ -2349,6 +2392,17 @@ class Summariser:
                 if v[1] or root is None or self.prog.find_method(root, e.attr)[1] is not None:
                     raise Unsupported(f"attribute of the owning object at {self.module.path}:{e.lineno} {ast.unparse(e)[:60]}")
                 return self.field(e.attr)
+            names = record_names(v) if v[0] == "tuple" else None
+            if names and e.attr not in names:
+                # a property of the immutable record class, read on a record display
+                quals = self.prog.record_classes.get(tuple(names), set())
+                if len(quals) == 1:
+                    mod, cname = next(iter(quals)).rsplit(".", 1)
+                    K = self.prog.modules[mod].classes[cname]
+                    c, m = self.prog.find_method(K, e.attr)
+                    if m is not None and any(ast.unparse(d) == "property" for d in m.decorator_list) and \
+                            self._can_inline_function(c.module, m):
+                        return self.inline_function(c.module, m, f"{c.qual}.{e.attr}", (v,), {}, events, e, level=0)
             return attr_of(v, e.attr)
         if isinstance(e, ast.BinOp):
             if isinstance(e.op, ast.Mod) and isinstance(e.left, ast.Constant) and isinstance(e.left.value, str):
@@ -2631,6 +2685,15 @@ class Summariser:
             c, m = self.prog.find_method(self.cls, f.attr)
             if m is not None and not any(ast.unparse(d) == "property" for d in m.decorator_list):
                 return self.inline(c, m, args, dict(kwargs), events, e)
+            if m is not None:
+                # a property that hands out a callable: read it, then call what it returned
+                held = self.inline(c, m, (), {}, events, f)
+                val = self._call_any(held, args, kwargs, events, e)
+                if val is not None:
+                    return val
+                res = ("res", self.site(e), "expr-call", (held,) + args, kwargs)
+                events.append(Call("expr", None, held, args, kwargs, res, line))
+                return res
             fn_ = self.fname(f.attr)
             recv = self.field(fn_)
             res = ("res", self.site(e), f"self.{fn_}", args, kwargs)
@@ -3279,8 +3342,10 @@ class Summariser:
         owned = self.prog.owned
         if key not in owned:
             c, init = self.prog.find_method(self.cls, "__init__")
-            if self.field_prefix or init is None or init in self.fnstack or not any(
-                    isinstance(n, ast.Attribute) and n.attr == fld and isinstance(n.ctx, ast.Store) for n in ast.walk(init)):
+            inits = [k.methods["__init__"] for k in self.prog.mro(self.cls) if "__init__" in k.methods]
+            if self.field_prefix or init is None or any(i in self.fnstack for i in inits) or not any(
+                    isinstance(n, ast.Attribute) and n.attr == fld and isinstance(n.ctx, ast.Store)
+                    for i in inits for n in ast.walk(i)):
                 return None
             owned[key] = None
             try:
